@@ -78,6 +78,8 @@ type Conn struct {
 	WriteErr       error
 	// OnClose is called once (without the lock) when the connection is first closed.
 	OnClose func()
+	// CloseErr is returned by the first Close (the connection is closed all the same).
+	CloseErr error
 	// OnGate is called (without the lock) at gates: "write:before:<i>", "write:after:<i>", item gates.
 	OnGate func(gate string)
 
@@ -472,7 +474,8 @@ func (c *Conn) Close() error {
 	if was {
 		return &net.OpError{Op: "close", Net: "sim", Err: net.ErrClosed}
 	}
-	return nil
+	// like tls.Conn, whose Close reports a failed close_notify although the transport is closed
+	return c.CloseErr
 }
 
 func (c *Conn) LocalAddr() net.Addr  { return addr("sim-local:" + itoa(c.ID)) }
